@@ -109,8 +109,16 @@ func walkAttributes(elem *etree.Element, rendered map[string]string) {
 			// namespace nodes are ordered by prefix
 			return x.Key < y.Key
 		}
-		// then order by namespace URI (not prefix) and finally by key
-		if xs, ys := scope[x.Space], scope[y.Space]; xs != ys {
+		// then order by namespace URI (not prefix) and finally by key; an
+		// attribute without a prefix is in no namespace and comes first
+		var xs, ys string
+		if x.Space != "" {
+			xs = scope[x.Space]
+		}
+		if y.Space != "" {
+			ys = scope[y.Space]
+		}
+		if xs != ys {
 			return xs < ys
 		}
 		return x.Key < y.Key
